@@ -94,6 +94,14 @@ func contentTypes(s Summary) []*Term {
 
 // decimalSizeBody: t renders `size` in decimal followed by a newline.
 func decimalSizeBody(s Summary, t, size *Term) bool {
+	// as a template: exactly <decimal of size> "\n", however it is assembled
+	prev := pieceCtx
+	pieceCtx = &s
+	pcs := mergeLits(strPieces(t))
+	pieceCtx = prev
+	if len(pcs) == 2 && pcs[0].k == "dec" && pcs[0].t == normInt(size) && pcs[1].k == "lit" && pcs[1].lit == "\n" {
+		return true
+	}
 	for _, sp := range calls(s, "fmt.Sprintf", "fmt.Appendf", "fmt.Fprintf") {
 		if sp.Res == nil || !(mentions(t, sp.Res) || sp.Callee == "fmt.Fprintf") {
 			continue
